@@ -3,7 +3,9 @@ package hx
 import (
 	"encoding/json"
 	"fmt"
+	"github.com/google/jsonschema-go/jsonschema"
 	"os"
+	"strings"
 )
 
 // Replay re-runs a stored counterexample natively against the real package.
@@ -70,6 +72,54 @@ func Replay(path string) int {
 		}
 		fmt.Println("not reproduced with the canonical representation (the recorded Go representation may matter: re-run the check)")
 		return 1
+	}
+	if f.Kind == "kernel-false" || (f.Family == "kernel" && f.Kind == "panic") {
+		if rc := replayKernel(f); rc >= 0 {
+			return rc
+		}
+	}
+	if f.Kind == "accepted-but-not-decodable" || f.Kind == "encoding-rejected" {
+		name := strings.TrimPrefix(f.Skeleton, "F-types/")
+		for _, tc := range TypeFamily() {
+			if tc.Name != name {
+				continue
+			}
+			schema, err := jsonschema.ForType(tc.T, nil)
+			if err != nil {
+				fmt.Println("ForType:", err)
+				return 1
+			}
+			sj, _ := json.Marshal(schema)
+			fmt.Println("type:           ", tc.T)
+			fmt.Println("inferred schema:", string(sj))
+			rs, err := schema.Resolve(nil)
+			if err != nil {
+				fmt.Println("Resolve:", err)
+				return 1
+			}
+			var inst any
+			if err := json.Unmarshal([]byte(f.Instance), &inst); err != nil {
+				fmt.Println("instance is not JSON:", err)
+				return 2
+			}
+			nv, msg := nativeVerdict(rs, inst)
+			_, derr := decodeStrict(tc.T, []byte(f.Instance))
+			fmt.Println("document:       ", f.Instance)
+			fmt.Println("Validate:       ", nv, trunc(msg, 200))
+			fmt.Println("strict decoding:", derr)
+			if f.Kind == "accepted-but-not-decodable" && nv == VNil && derr != nil {
+				fmt.Println("REPRODUCED (the schema accepts a document that does not decode into the type)")
+				return 0
+			}
+			if f.Kind == "encoding-rejected" && nv != VNil {
+				fmt.Println("REPRODUCED (the schema rejects this document; that it is an encoding of a value of the type was established by the check)")
+				return 0
+			}
+			fmt.Println("not reproduced")
+			return 1
+		}
+		fmt.Println("unknown type", name)
+		return 2
 	}
 	fmt.Println("expected:", f.Expected)
 	fmt.Println("observed:", f.Observed)
